@@ -33,6 +33,18 @@ type HarnessSpec struct {
 	Native   bool              `json:"native_replay"` // counterexamples can be replayed natively
 	SolverMs int               `json:"solver_ms"`
 	Bounds   string            `json:"bounds"`
+	Gen      *GenSpec          `json:"gen"`
+}
+
+// GenSpec generates work items from the registry of API message types found in the tree (after running init).
+type GenSpec struct {
+	Kind          string  `json:"kind"` // api_versions
+	Which         string  `json:"which"` // requests | responses
+	QuickKeys     []int   `json:"quick_keys"`
+	ThoroughKeys  []int   `json:"thorough_keys"` // nil = all registered
+	QuickExtra    [][]int `json:"quick_extra"`
+	ThoroughExtra [][]int `json:"thorough_extra"`
+	FlexibleOnly  bool    `json:"flexible_only"`
 }
 
 type PropSpec struct {
@@ -324,6 +336,29 @@ func (ex *Exec) runState(st *State) {
 	}
 }
 
+// site names the innermost repository function on the current stack (skipping harness and stdlib frames).
+func (st *State) site() string {
+	co := st.co()
+	for i := len(co.frames) - 1; i >= 0; i-- {
+		f := co.frames[i].fn
+		if f.Pkg != nil && strings.HasPrefix(f.Pkg.Pkg.Path(), repoPath) && !strings.Contains(f.Name(), "VH_") && !strings.HasPrefix(f.Name(), "vh") {
+			n := f.String()
+			return strings.ReplaceAll(n, repoPath, "kafka")
+		}
+		if f.Pkg == nil && f.Parent() != nil {
+			// closure: use the enclosing function's name
+			n := f.String()
+			if strings.Contains(n, repoPath) {
+				return strings.ReplaceAll(n, repoPath, "kafka")
+			}
+		}
+	}
+	if len(co.frames) > 0 {
+		return co.frames[len(co.frames)-1].fn.String()
+	}
+	return "?"
+}
+
 func (st *State) where() string {
 	if len(st.coros) == 0 {
 		return "?"
@@ -367,6 +402,9 @@ func runProperty(p *Program, spec *PropSpec, opt RunOptions) []*ItemResult {
 		sets := h.Quick
 		if opt.Tier == "thorough" && h.Thorough != nil {
 			sets = h.Thorough
+		}
+		if h.Gen != nil {
+			sets = p.genItems(h.Gen, opt.Tier)
 		}
 		if sets == nil {
 			sets = [][]int{{}}
@@ -450,7 +488,11 @@ func runProperty(p *Program, spec *PropSpec, opt RunOptions) []*ItemResult {
 						fmt.Fprintf(os.Stderr, "      inconclusive: %s\n", m)
 					}
 					for _, v := range r.Violations {
-						fmt.Fprintf(os.Stderr, "      violation: %s %s %s\n", v.Kind, v.ID, v.Msg)
+						m := v.Msg
+						if len(m) > 160 {
+							m = m[:160]
+						}
+						fmt.Fprintf(os.Stderr, "      violation: %s %s %s\n", v.Kind, v.ID, m)
 					}
 				}
 				mu.Unlock()
